@@ -26,8 +26,14 @@ func Create(path string) (*Writer, error) {
 	return &Writer{f: f, w: bufio.NewWriterSize(f, 1<<20)}, nil
 }
 
+// Discard returns a writer that drops every event (used for reference runs).
+func Discard() *Writer { return &Writer{} }
+
 // Emit writes one event line. "ev" is the event name.
 func (t *Writer) Emit(ev string, r Rec) {
+	if t.w == nil {
+		return
+	}
 	if r == nil {
 		r = Rec{}
 	}
@@ -48,6 +54,9 @@ func (t *Writer) Lines() int { t.mu.Lock(); defer t.mu.Unlock(); return t.n }
 func (t *Writer) Close() error {
 	t.mu.Lock()
 	defer t.mu.Unlock()
+	if t.w == nil {
+		return nil
+	}
 	if err := t.w.Flush(); err != nil {
 		return err
 	}
